@@ -234,11 +234,34 @@ where
 
         // One deadline for the whole handshake, not a fresh timeout per read: a peer that
         // trickles bytes must still be dropped once the handshake interval has elapsed.
-        let read_result = tokio::time::timeout_at(
-          hs_deadline,
-          hs_read_half.read_buf(&mut self.handshake_read_buf),
-        )
-        .await;
+        // The socket may be closed, or its context terminated, while the peer is still silent: the
+        // lifecycle events are watched here too, so that close()/term() never wait for the peer.
+        // (Commands stay in the mailbox until the handshake is over, as before.)
+        let read_result = tokio::select! {
+          biased;
+          maybe_event = self.system_event_receiver.recv() => {
+            match maybe_event {
+              Ok(event) => self.process_system_event(event).await,
+              Err(broadcast::error::RecvError::Lagged(n)) => {
+                self.set_fatal_error(ZmqError::Internal(format!("System event lagged by {}", n))).await;
+              }
+              Err(broadcast::error::RecvError::Closed) => {
+                self.set_fatal_error(ZmqError::Internal("System event channel closed".into())).await;
+              }
+            }
+            if matches!(
+              self.current_phase,
+              ConnectionPhaseX::ShuttingDownStream | ConnectionPhaseX::Terminating
+            ) {
+              break 'handshake;
+            }
+            continue 'handshake;
+          }
+          r = tokio::time::timeout_at(
+            hs_deadline,
+            hs_read_half.read_buf(&mut self.handshake_read_buf),
+          ) => r,
+        };
 
         match read_result {
           Err(_elapsed) => {
